@@ -213,6 +213,16 @@ pub fn thread_count() -> usize {
     std::fs::read_dir("/proc/self/task").map(|d| d.count()).unwrap_or(0)
 }
 
+/// Watchdog wait.  A deadlocked call never returns; a call that is merely starved of CPU (the checks may run on a
+/// heavily loaded machine) does, so after the first deadline the wait goes on for a grace period before the call is
+/// declared hung.
+fn recv_patiently<T>(rx: &std::sync::mpsc::Receiver<T>) -> Result<T, std::sync::mpsc::RecvTimeoutError> {
+    match rx.recv_timeout(Duration::from_secs(15)) {
+        Err(std::sync::mpsc::RecvTimeoutError::Timeout) => rx.recv_timeout(Duration::from_secs(60)),
+        r => r,
+    }
+}
+
 /// runs under a watchdog: `HANG` if the call has not returned after the deadline
 pub fn run_x(line: &str) -> String {
     let c = match parse_x(line) {
@@ -227,7 +237,7 @@ pub fn run_x(line: &str) -> String {
         let r = std::panic::catch_unwind(std::panic::AssertUnwindSafe(|| run_x_inner(&c2, t2)));
         let _ = tx.send(r.map_err(|_| ()));
     });
-    let verdict = match rx.recv_timeout(Duration::from_secs(15)) {
+    let verdict = match recv_patiently(&rx) {
         Ok(Ok(s)) => s,
         Ok(Err(())) => "PANIC".to_string(),
         Err(_) => "HANG".to_string(),
@@ -439,7 +449,7 @@ pub fn run_y(line: &str) -> String {
         }));
         let _ = tx.send(r.map_err(|_| ()));
     });
-    let r = match rx.recv_timeout(Duration::from_secs(15)) {
+    let r = match recv_patiently(&rx) {
         Ok(Ok(s)) => s,
         Ok(Err(())) => "PANIC".to_string(),
         Err(_) => "HANG".to_string(),
@@ -612,7 +622,7 @@ pub fn run_z(line: &str) -> String {
         }));
         let _ = tx.send(r.map_err(|_| ()));
     });
-    let r = match rx.recv_timeout(Duration::from_secs(15)) {
+    let r = match recv_patiently(&rx) {
         Ok(Ok(s)) => s,
         Ok(Err(())) => "PANIC".to_string(),
         Err(_) => "HANG".to_string(),
